@@ -161,8 +161,8 @@ pub fn property() -> Property {
         rule: "histories vec(Op,0..40|120) of Push(bytes)/Reset/Prove(idx incl. >= count)/Reload(k<=count) run on the storage-backed and in-memory binary trees in lock-step with a Vec<leaf> model; after every op root, leaf count, proofs (vs RFC 6962 audit path) and refusal beyond count are compared. Non-trivial = history with a push after a reset or reload followed by a prove; distinct by op-kind/length-class signature".into(),
         assumptions: vec!["sha2 crate is correct".into(), "model::rfc6962 is the RFC 6962 tree hash / audit path".into()],
         parts: vec![
-            gen_part("storage-tree", "storage-backed tree, with load(storage,k)", (3000, 100_000), |c: &Ctx| history(c.tier.pick(40, 120)), run_storage),
-            gen_part("inmem-tree", "in-memory tree", (3000, 100_000), |c: &Ctx| history(c.tier.pick(40, 120)), run_inmem),
+            gen_part("storage-tree", "storage-backed tree, with load(storage,k)", (80_000, 3_000_000), |c: &Ctx| history(c.tier.pick(40, 120)), run_storage),
+            gen_part("inmem-tree", "in-memory tree", (80_000, 3_000_000), |c: &Ctx| history(c.tier.pick(40, 120)), run_inmem),
         ],
         floors: vec![("storage-tree", "push-after-reset/reload-then-prove", 0.15)],
     }
